@@ -90,6 +90,30 @@ PPL::PIP_Problem::~PIP_Problem() {
 }
 
 void
+PPL::PIP_Problem::m_swap(PIP_Problem& y) {
+  using std::swap;
+  swap(external_space_dim, y.external_space_dim);
+  swap(internal_space_dim, y.internal_space_dim);
+  swap(status, y.status);
+  swap(current_solution, y.current_solution);
+  swap(input_cs, y.input_cs);
+  swap(first_pending_constraint, y.first_pending_constraint);
+  swap(parameters, y.parameters);
+  swap(initial_context, y.initial_context);
+  for (dimension_type i = CONTROL_PARAMETER_NAME_SIZE; i-- > 0; ) {
+    swap(control_parameters[i], y.control_parameters[i]);
+  }
+  swap(big_parameter_dimension, y.big_parameter_dimension);
+  // The solution trees have changed hands: update their owners.
+  if (current_solution != nullptr) {
+    current_solution->set_owner(this);
+  }
+  if (y.current_solution != nullptr) {
+    y.current_solution->set_owner(&y);
+  }
+}
+
+void
 PPL::PIP_Problem::control_parameters_init() {
   control_parameters[CUTTING_STRATEGY] = CUTTING_STRATEGY_FIRST;
   control_parameters[PIVOT_ROW_STRATEGY] = PIVOT_ROW_STRATEGY_FIRST;
